@@ -29,12 +29,25 @@ structure PkgVar where
   type : String
   deriving DecidableEq, Repr
 
+/-- a store into a field of its own receiver by an evaluation-time method (one with a
+`data.Context` parameter, or a method of the same receiver such a method calls) of a type of
+package `node` -/
+structure NodeWrite where
+  typ         : String
+  method      : String
+  field       : String
+  parserBuilt : Bool   -- package parser constructs the type: the receiver is a syntax node, shared by
+                       -- every request that runs the code (false: an object made per evaluation)
+  called      : Bool   -- a call `.method(` exists somewhere in the repository
+  deriving DecidableEq, Repr
+
 structure Facts where
   cells           : List CellFact
   entries         : List EntryFact
   outerReset      : Bool   -- `finalizeHandler`'s outermost wrapper resets the caches before serving
   routesFinalized : Bool   -- every registration on a Server's mux passes its handler through `finalizeHandler`
   pkgVars         : List PkgVar   -- package-level variables of std/net/http and node/globals_*.go, env_lookup.go
+  nodeWrites      : List NodeWrite -- stores of evaluation-time methods of package node into their own receiver
   shape           : List String   -- places where the source no longer has the shape the translator understands
   deriving Repr
 
@@ -64,15 +77,53 @@ def requestKeyed : List PkgVar :=
 def processConstant : List PkgVar :=
   [⟨"node", "argvValue", "*data.ArrayValue"⟩, ⟨"node", "argcValue", "*data.IntValue"⟩]
 
+/-! ### Per-evaluation state must not be kept in syntax nodes
+
+The AST of a handler is shared by all requests.  A value a request *creates* by evaluating a
+node (a closure, a generator, an object) must therefore live in a fresh Go object, never in a
+field of the node itself: `f.ctx = ctx; return NewFuncValue(f)` in `LambdaExpression.GetValue`
+would hand every request the same closure value, whose `$this` / captured variables are those
+of whichever request evaluated the literal last.  The translator lists every store of an
+evaluation-time method into its receiver; the ones allowed on syntax nodes are the two groups
+below (type, field — the method name may change), everything else is a violation. -/
+
+/-- memo of the *definition* a syntax node names — the function or class looked up by name in
+the VM's process-wide registry, or the call node built from it: the same for every request
+that evaluates the node, whoever stores it first -/
+def definitionMemo : List (String × String) :=
+  [("Annotation", "class"),                 -- attribute class, `GetOrLoadClass(a.Name)`
+   ("CallFunctionLater", "Fun"),            -- function by name, `GetFunc(c.Name)`
+   ("CallLater", "Fun"), ("CallLater", "FunName"),   -- function by (namespaced) name
+   ("CallStaticMethodLater", "call"),       -- `NewCallStaticMethod(class by name, method)`
+   ("CallStaticPropertyLater", "access"),   -- `NewCallStaticProperty(class by name, property)`
+   ("NewClassGenerated", "class"),          -- class by name (generic instantiation of it)
+   ("NewExpression", "class")]              -- class by name
+
+/-- process-wide by the language's design and excluded by the property's assumptions: the
+cells of `static $x` locals of a function / method, the value of a static property -/
+def sharedByDesign : List (String × String) :=
+  [("ClassMethod", "staticLocals"), ("FunctionStatement", "staticLocals"), ("ClassProperty", "DefaultValue")]
+
+/-- stores into syntax nodes that are neither definition memos nor shared by design.  Stores of
+types the parser never builds (generator / loop resumption states: `FuncYieldStackState`,
+`ForYieldControl`, `ForeachArrayYieldControl`, `YieldFromControl`, `arrayGenerator` — created by
+the call that starts the generator) and of methods nothing calls are not on the request path. -/
+def Facts.nodeWriteViolations (f : Facts) : List String :=
+  ((f.nodeWrites.filter (fun w => w.parserBuilt && w.called &&
+      !(definitionMemo.contains (w.typ, w.field)) && !(sharedByDesign.contains (w.typ, w.field)))).map
+    (fun w => "nodewrite:" ++ w.typ ++ "." ++ w.method ++ "." ++ w.field)).eraseDups
+
 /-- the isolation violations visible in the facts: superglobals cached in package-level
 variables, cached variables the reset does not clear, any other package-level variable on
-the request path that is not keyed by the request, and unknown shapes -/
+the request path that is not keyed by the request, per-evaluation state stored in a syntax node,
+and unknown shapes -/
 def Facts.violations (f : Facts) : List String :=
   (f.cells.filter (fun c => !c.vars.isEmpty)).map (fun c => "shared:" ++ c.name) ++
   (f.cells.filter (fun c => !c.reset)).map (fun c => "not-reset:" ++ c.name) ++
   (Kind.all.filter (fun k => (f.cells.find? (fun c => c.kind = k)).isNone)).map (fun k => "no-fact:" ++ reprStr k) ++
   ((f.pkgVars.filter (fun v => !(requestKeyed.contains v) && !(processConstant.contains v) &&
       !(f.cells.any (fun c => c.vars.contains v.name)))).map (fun v => "pkgvar:" ++ v.pkg ++ "." ++ v.name)) ++
+  f.nodeWriteViolations ++
   f.shape.map (fun s => "shape:" ++ s)
 
 /-- script code that can run before the caches are reset for its request, or on a context
